@@ -36,19 +36,27 @@ type c20Step struct {
 }
 type c20Job struct {
 	defShell string
+	defWD    bool // defaults.run with working-directory (also when there is no default shell)
 	windows  bool
 	steps    []c20Step
 }
 type c20File struct {
 	defShell string
+	defWD    bool
 	jobs     []c20Job
 }
 
 func (f *c20File) yaml(fi int) string {
 	var b strings.Builder
 	b.WriteString("on: push\n")
-	if f.defShell != "" {
-		fmt.Fprintf(&b, "defaults:\n  run:\n    shell: %s\n", f.defShell)
+	if f.defShell != "" || f.defWD {
+		b.WriteString("defaults:\n  run:\n")
+		if f.defWD {
+			b.WriteString("    working-directory: .\n")
+		}
+		if f.defShell != "" {
+			fmt.Fprintf(&b, "    shell: %s\n", f.defShell)
+		}
 	}
 	b.WriteString("jobs:\n")
 	for ji, j := range f.jobs {
@@ -58,8 +66,14 @@ func (f *c20File) yaml(fi int) string {
 		} else {
 			b.WriteString("    runs-on: ubuntu-latest\n")
 		}
-		if j.defShell != "" {
-			fmt.Fprintf(&b, "    defaults:\n      run:\n        shell: %s\n", j.defShell)
+		if j.defShell != "" || j.defWD {
+			b.WriteString("    defaults:\n      run:\n")
+			if j.defShell != "" {
+				fmt.Fprintf(&b, "        shell: %s\n", j.defShell)
+			}
+			if j.defWD {
+				b.WriteString("        working-directory: .\n")
+			}
 		}
 		b.WriteString("    steps:\n")
 		for si, s := range j.steps {
@@ -99,7 +113,7 @@ func runC20(c *ctx, r *Report) error {
 		nSan, nSets = 100000, 400
 	}
 	cpus := runtime.NumCPU()
-	r.Rule = fmt.Sprintf("(1) %d random scripts with placeholders (closed, unclosed, nested, adjacent, with line breaks and non-ASCII): real sanitizeExpressionsInScript (verif hook) vs model + length/outside-unchanged oracle; (2) %d workflow sets (1–4 files × 1–3 jobs × 0–5 run steps; shells at step / job / workflow / runner level; per-invocation tool behaviour drawn from ok, issue list, crash, kill -9, kill -9 after complete output, garbage, empty output; tool latency 0–40 ms; one set with > NumCPU slow invocations) linted by the real LintFiles with a stand-in tool that logs stdin and start/end times: every expected script arrives exactly once and byte-identical to setup + sanitize(script), ≤ NumCPU(=%d) overlapping tool processes, all processes ended before LintFiles returned, issues ↦ diagnostics at the run: key, failures ↦ fatal error; (3) the outcome table: both tools × output {none, 1 issue, 3 issues, garbage, cut off mid-issue} × termination {exit 0, 1, 3, SIGKILL, cannot be executed}, observed outcome vs the model's callback on the same stdout; the schedule points recorded by the verif hooks are replayed through the model's transition system (every transition must be enabled, permit invariant checked in every state); non-trivial = distinct scripts with a placeholder / workflow sets with ≥ 2 invocations", nSan, nSets, cpus)
+	r.Rule = fmt.Sprintf("(1) %d random scripts with placeholders (closed, unclosed, nested, adjacent, with line breaks and non-ASCII): real sanitizeExpressionsInScript (verif hook) vs model + length/outside-unchanged oracle; (2) %d workflow sets (1–4 files × 1–3 jobs × 0–5 run steps; shells at step / job / workflow / runner level, defaults.run sections with and without a shell; per-invocation tool behaviour drawn from ok, issue list, crash, kill -9, kill -9 after complete output, garbage, empty output; tool latency 0–40 ms; one set with > NumCPU slow invocations) linted by the real LintFiles with a stand-in tool that logs stdin and start/end times: every expected script arrives exactly once and byte-identical to setup + sanitize(script), ≤ NumCPU(=%d) overlapping tool processes, all processes ended before LintFiles returned, issues ↦ diagnostics at the run: key, failures ↦ fatal error; (3) the outcome table: both tools × output {none, 1 issue, 3 issues, garbage, cut off mid-issue} × termination {exit 0, 1, 3, SIGKILL, cannot be executed}, observed outcome vs the model's callback on the same stdout; the schedule points recorded by the verif hooks are replayed through the model's transition system (every transition must be enabled, permit invariant checked in every state); non-trivial = distinct scripts with a placeholder / workflow sets with ≥ 2 invocations", nSan, nSets, cpus)
 	var b batch
 
 	// (1) sanitize
@@ -185,10 +199,10 @@ func runC20(c *ctx, r *Report) error {
 		big := set == 1
 		var files []*c20File
 		for fi := 0; fi < nFiles; fi++ {
-			f := &c20File{defShell: shells[rng.Intn(4)]}
+			f := &c20File{defShell: shells[rng.Intn(6)], defWD: rng.Intn(3) == 0}
 			nj := 1 + rng.Intn(3)
 			for ji := 0; ji < nj; ji++ {
-				j := c20Job{defShell: shells[rng.Intn(6)], windows: rng.Intn(5) == 0}
+				j := c20Job{defShell: shells[rng.Intn(6)], defWD: rng.Intn(3) == 0, windows: rng.Intn(5) == 0}
 				ns := rng.Intn(6)
 				if big {
 					ns = 12
